@@ -435,6 +435,23 @@ def install(I):
             return tag == "bool"
         raise Unsupported(f"numpy.issubdtype({dt!r}, {kind!r})")
 
+    @ext("repeat")
+    def _repeat(ctx, a, repeats, axis=None):
+        ctx.assumed_ext.add("numpy.repeat(a, k): every element k times in a row, element i is a[i // k]")
+        arr = as_narr(I, ctx, a)
+        k = B.zint(repeats)
+        return NArr(smt.simp(zn(arr) * k), lambda i: arr.elem(smt.simp(B._z(i) / k)), arr.dtype, "repeat")
+
+    @ext("take")
+    def _take(ctx, a, indices, **k):
+        ctx.assumed_ext.add("numpy.take(a, indices)[i] = a[indices[i]]")
+        idx = as_narr(I, ctx, indices)
+        if isinstance(a, (ListVal, TupleVal)):
+            items = list(a.items)
+            return NArr(idx.n, lambda i: B.Choice([(B.zint(idx.elem(i)) == kk, it) for kk, it in enumerate(items)], items[0] if items else None), "object", "take")
+        arr = as_narr(I, ctx, a)
+        return NArr(idx.n, lambda i: arr.elem(smt.simp(B.zint(idx.elem(i)))), arr.dtype, "take")
+
     @ext("full_like")
     def _full_like(ctx, a, v, **k):
         if isinstance(a, NArr):
